@@ -14,6 +14,7 @@ import (
 	"os"
 	"os/exec"
 	"path/filepath"
+	"strconv"
 	"strings"
 	"testing"
 	"time"
@@ -87,15 +88,16 @@ func startBroker() error {
 		return err
 	}
 	go brokerCmd.Wait()
-	for i := 0; i < 300; i++ {
-		c, err := net.DialTimeout("tcp", brokerAddr, 100*time.Millisecond)
-		if err == nil {
-			c.Close()
-			return nil
-		}
-		time.Sleep(20 * time.Millisecond)
+	// the listening socket must be the broker's own (the port was picked by listen-and-close; another process
+	// can take it in between and a connect test would succeed against that foreign listener)
+	_, ps, _ := net.SplitHostPort(brokerAddr)
+	port, _ := strconv.Atoi(ps)
+	if !vstat.WaitListener(brokerCmd.Process.Pid, port, 10*time.Second) {
+		brokerCmd.Process.Kill()
+		brokerCmd = nil
+		return fmt.Errorf("broker did not come up on %s (port taken by another process?)", brokerAddr)
 	}
-	return fmt.Errorf("broker did not come up")
+	return nil
 }
 
 func render(r wreq) []byte {
